@@ -6,7 +6,10 @@
 //! mix, and with the other operand KIND (record op number <-> record op constant-record,
 //! sub_swapped / div_swapped / number.pow(record) <-> constant-record op record, Sum <-> fold of
 //! +).  All six must produce the same observation (and every record's number must equal the same
-//! computation carried out on plain numbers with the element type's own operators); printed once:
+//! computation carried out on plain numbers with the element type's own operators).  A program
+//! with a Sum instruction is run 15 more times, handing the summed records to `impl Sum for
+//! Record` through iterators of every other SHAPE (prog.rs `sum_shaped`; `inconsistent 600+shape`
+//! / `650+shape`).  Printed once:
 //!   ( ((number is_constant index derivs) per output) (index of every variable) )
 use crate::guarded;
 use crate::num::Enc;
@@ -118,5 +121,29 @@ where
             }
         }
     }
-    canonical.unwrap()
+    let canonical = canonical.unwrap();
+    // every Sum instruction again with its items handed to `impl Sum for Record` through every
+    // other iterator SHAPE (prog.rs `sum_shaped`: unknown lower bound, from_fn, chain, flat_map,
+    // not fused, by &mut, lying size hints ...), in ownership form shape % 5
+    if has_sum(&prog) {
+        for shape in 1..SUM_SHAPES {
+            let list = WengertList::<T>::new();
+            let obs = match run_records_shaped::<T>(&list, &prog, shape % 5, shape) {
+                Err(code) => return inconsistent(code),
+                Ok(nodes) => {
+                    if !nodes.iter().zip(plain.iter()).all(|(r, p)| r.number == *p) {
+                        return inconsistent(650 + shape as i64);
+                    }
+                    match observe::<T>(&nodes, &vars, &outs) {
+                        Err(code) => return inconsistent(code),
+                        Ok(s) => s,
+                    }
+                }
+            };
+            if obs != canonical {
+                return inconsistent(600 + shape as i64);
+            }
+        }
+    }
+    canonical
 }
